@@ -341,6 +341,9 @@ class Interp:
         if isinstance(f, ast.Attribute) and isinstance(f.value, ast.Name) and f.value.id == "torch":
             return self.torch_fn(f.attr, args, kw, n)
         # receiver.method(...)
+        if isinstance(f, ast.Attribute) and f.attr == "_finfo_max":
+            # largest finite value of the tensor's dtype: the same symbol torch.nan_to_num uses
+            return Val("lin", ER(er.FIN, er.BIG))
         if isinstance(f, ast.Attribute):
             recv = self.eval(f.value)
             return self.method(f.attr, recv, args, kw, n)
@@ -435,6 +438,8 @@ class Interp:
             return self.where(args[0], recv, args[1])
         if n == "nan_to_num":
             return self.nan_to_num(recv, *args, **kw)
+        if name == "_finfo_max":      # largest finite value of the dtype: the same symbol torch.nan_to_num uses
+            return Val("lin", ER(er.FIN, er.BIG))
         if n == "masked_fill":
             return self.where(args[0], args[1], recv)
         if n == "to":
